@@ -113,14 +113,15 @@ class Engine(EngineBase):
                 if rng.random() < 0.8:
                     ops.append(["init", -1])
             mix = ["open", "init", "init", "open_id", "update_cache", "restart", "lookup", "lookup",
-                   "drop", "rm_cache", "rm_workspace"]
+                   "drop", "rm_cache", "rm_workspace", "open_gone"]
         else:
             n = rng.randrange(10, 50 if tier == "quick" else 60)
             mix = (["open"] * 5 + ["open_id"] * 2 + ["init"] * 5 + ["doc_set"] * 4 + ["doc_del", "doc_reset"]
                    + ["file_write"] * 3 + ["file_del", "clear", "reset", "remove", "remove"]
                    + ["sp_set"] * 6 + ["sp_del"] * 2 + ["sp_nested"] * 2 + ["sp_assign"] * 2
                    + ["update_sp"] * 2 + ["move"] * 3 + ["clone"] * 3 + ["update_cache", "restart", "restart"]
-                   + ["drop", "copy", "copy", "deepcopy", "pickle", "init_project", "rm_cache", "rm_workspace"])
+                   + ["drop", "copy", "copy", "deepcopy", "pickle", "init_project", "rm_cache", "rm_workspace",
+                      "open_gone", "open_gone"])
             if rng.random() < (0.03 if tier == "quick" else 0.15):
                 mix += ["pickle_fresh"] * 2
             if P == "C03":
@@ -139,6 +140,9 @@ class Engine(EngineBase):
                 ops.append(o)
             elif k == "open_id":
                 ops.append([k, pi, h, rng.choice([32, 32, 32, "min", "min+1"])])
+            elif k == "open_gone":
+                # the full id of a job that existed earlier (removed / re-keyed / moved away since)
+                ops.append([k, pi, h, rng.choice(["doc", "doc", "init", "file", None])])
             elif k in ("init", "clear", "reset", "remove", "move", "clone", "drop", "copy", "deepcopy",
                        "pickle"):
                 ops.append([k, h])
@@ -266,6 +270,7 @@ class Run:
         self.pp = [world.p("p1"), world.p("p2")]
         self.projects = [signac.init_project(p) for p in self.pp]
         self.model = [{}, {}]  # id -> {"sp","doc","files","lin"}
+        self.ever = [{}, {}]  # id -> state point, of every job that ever existed in the project
         self.decoys = [set(), set()]
         self.emptydirs = [set(), set()]
         self.handles = []
@@ -336,6 +341,9 @@ class Run:
         ops = self.sc["ops"]
         for i, op in enumerate(ops):
             fn = getattr(self, "op_" + op[0])
+            for pi in (0, 1):
+                for jid, m in self.model[pi].items():
+                    self.ever[pi][jid] = m["sp"]
             try:
                 fn(op)
             except Mismatch as m:
@@ -489,6 +497,37 @@ class Run:
                            f"open_job(id={key!r}) gave {job.id}, expected {jid}")
         hd = H(job, pi, self.model[pi][jid]["sp"], self.new_group(), "by_id")
         self.handles.append(hd)
+
+    def op_open_gone(self, op):
+        """open_job(id=<full id of a job that no longer exists>): KeyError, or (the session still remembers
+        the id) a lazy handle on that state point - which then works like any other handle."""
+        _, pi, jsel, follow = op
+        gone = sorted(j for j in self.ever[pi] if j not in self.model[pi] and j not in self.emptydirs[pi]
+                      and j not in self.decoys[pi])
+        if not gone:
+            return
+        jid = gone[jsel % len(gone)]
+        holder = {}
+        exc, seg = self.call(lambda: holder.setdefault("j", self.projects[pi].open_job(id=jid)))
+        if exc is not None:
+            if isinstance(exc, KeyError):
+                self.probe("open_gone_keyerror")
+                return
+            self.expect(exc, "KeyError", op, "C02")
+        job = holder["j"]
+        muts = [e for e in seg if e[2] in MUTATING]
+        if job.id != jid or muts:
+            raise Mismatch("C02", "C02:open_job:gone-id", f"open_job(id={jid!r}) of a vanished job gave "
+                           f"{job.id}; mutating calls {muts[:3]}")
+        self.probe("open_gone_handle")
+        self.handles.append(H(job, pi, self.ever[pi][jid], self.new_group(), "by_sp"))
+        n = len(self.handles) - 1
+        if follow == "doc":
+            self.op_doc_set(["doc_set", n, "p", "gone"])
+        elif follow == "init":
+            self.op_init(["init", n])
+        elif follow == "file":
+            self.op_doc_reset(["doc_reset", n, {"q": 7}])
 
     def listed_ids(self, pi):
         """Names the implementation may legitimately treat as job ids: model ids (decoys and empty
